@@ -76,6 +76,23 @@ func runC12(r *rt.Runner) {
 			if kind == kType1 {
 				check("seekable source", nil, false, true)
 				check("seekable one-byte-reads", []int{1}, false, true)
+				// a source that has a Seek method but cannot seek (a pipe)
+				{
+					pr := &mon.PipeReader{PlanReader: mon.PlanReader{Data: it.data}}
+					if rng.IntN(2) == 0 {
+						pr.Chunks = randChunks(rng)
+					}
+					d, err := runEntry(env, kind, pr)
+					got := outcome{digest: d}
+					if err != nil {
+						got.err = err.Error()
+					}
+					c.Eval()
+					c.Count("plan kind: pipe (Seek method that always fails)")
+					if got != refOut {
+						c.Violation("delivery|type1|pipe", fmt.Sprintf("type1.Read from a source whose Seek method always fails (a pipe: it does not support seeking) differs from reading the same bytes from a plain reader:\n  got:       digest %s err %q\n  reference: digest %s err %q", got.digest, got.err, refOut.digest, refOut.err), "")
+					}
+				}
 				// a seekable source that is not positioned at its start
 				for _, prefix := range [][]byte{[]byte("%!PS junk prefix\n"), it.data, {0x80, 0x01, 0x05}} {
 					sr := &mon.SeekPlanReader{PlanReader: mon.PlanReader{Data: append(append([]byte(nil), prefix...), it.data...)}}
